@@ -2,12 +2,9 @@
    untampered, timely messages verify; malformed input of header size or more
    yields an error, not a panic).  Only statements; proofs in
    Proofs/Sig0Proofs.v.  Hash-then-sign [ss] and hash-then-verify [sc] are
-   universally quantified (Section variables of Model/Sig0.v).
-
-   Two clauses of the property are FALSE of the code as pinned and appear here
-   as explicit side conditions with refuting witnesses:
-   [ulen < clen + |SIG|] in sign_succeeds (witness sign_errbuf_refuted) and
-   [h_ar h < 256] in sign_verify (witness verify_arcount_refuted). *)
+   universally quantified (Section variables of Model/Sig0.v).  The model is
+   that of the code after the fixes 2fe1c25 (buffer sized from the uncompressed
+   length) and 2307360 (high octet of ARCOUNT-1). *)
 From Dns Require Import Model.Sig0 Model.Tsig Proofs.WireProofs Proofs.TsigProofs Proofs.Sig0Proofs.
 Open Scope N_scope.
 
@@ -15,70 +12,61 @@ Open Scope N_scope.
    (owner ".", class ANY, TTL 0, RDLENGTH covering RDATA and signature) with
    ARCOUNT incremented; the signature is computed over SIG RDATA | message *)
 Theorem sign_layout :
-  forall ss clen ulen h body r out,
-    sig0_sign ss clen ulen (hdr_wire h ++ body) r = Ok out ->
+  forall ss ulen h body r out,
+    sig0_sign ss ulen (hdr_wire h ++ body) r = Ok out ->
     exists sg,
       key_fields_bad r = false /\ valid_wire (s_signer r) = true /\ has_hash (s_alg r) = true /\
-      ulen + 1 <= clen + lenN (sig_rr_wire r) /\
       ss (s_alg r) (sig_rdata r ++ hdr_wire h ++ body) = Ok sg /\
       lenN out <= 65535 /\
       out = hdr_wire (set_ar h ((h_ar h mod 65536 + 1) mod 65536)) ++ body ++
             sig_rr_hdr ((lenN (sig_rdata r) mod 65536 + lenN sg) mod 65536) ++ sig_rdata r ++ sg.
 Proof. exact sign_spec. Qed.
 
-(* --- "any message can be signed": true whenever the buffer-size test passes,
-   i.e. the uncompressed length is below m.Len() plus the SIG's length
-   (always so without compression, where clen = ulen) ... *)
+(* --- any message can be signed, whatever its content, size or compression
+   setting: the buffer is sized from the UNCOMPRESSED length [ulen] plus one
+   plus the SIG, so PackBuffer never reallocates and PackRR has room whenever
+   the packed octets are not longer than ulen + 1 (compression only shortens;
+   Len >= |Pack| is property C08).  With usable SIG fields and a working
+   signer, Sign succeeds exactly up to the 65535-octet limit of a message. *)
 Theorem sign_succeeds :
-  forall ss clen ulen mbuf r sg,
+  forall ss ulen mbuf r sg,
     key_fields_bad r = false -> valid_wire (s_signer r) = true -> has_hash (s_alg r) = true ->
-    12 <= lenN mbuf -> lenN mbuf <= clen ->
-    ulen < clen + lenN (sig_rr_wire r) ->
+    12 <= lenN mbuf -> lenN mbuf <= ulen + 1 ->
     ss (s_alg r) (sig_rdata r ++ mbuf) = Ok sg ->
     lenN mbuf + lenN (sig_rr_wire r) + lenN sg <= 65535 ->
-    exists out, sig0_sign ss clen ulen mbuf r = Ok out.
+    exists out, sig0_sign ss ulen mbuf r = Ok out.
 Proof. exact Sig0Proofs.sign_succeeds. Qed.
 
-(* --- ... and false otherwise: whenever compression saves at least the SIG's
-   own length, Sign returns ErrBuf (genuine defect C18/Sign/ErrBuf-compress) *)
-Theorem sign_errbuf_refuted :
-  forall ss clen ulen mbuf r,
-    key_fields_bad r = false -> clen + lenN (sig_rr_wire r) <= ulen ->
-    sig0_sign ss clen ulen mbuf r = Err "buf".
-Proof. intros ss clen ulen mbuf r. exact (sign_errbuf clen ulen mbuf r ss). Qed.
+(* --- and ErrBuf has one cause left: the signed message would not fit 65535
+   octets (or the signer itself returned that error) *)
+Theorem sign_errbuf_only_when_too_large :
+  forall ss ulen mbuf r,
+    sig0_sign ss ulen mbuf r = Err "buf" ->
+    ss (s_alg r) (sig_rdata r ++ mbuf) = Err "buf" \/
+    exists sg, ss (s_alg r) (sig_rdata r ++ mbuf) = Ok sg /\
+               65535 < lenN mbuf + lenN (sig_rr_wire r) + lenN sg.
+Proof. exact sign_errbuf_cause. Qed.
 
 (* --- a signed message verifies against a key with the signer's name (case
    ignored) at any time inside the window, for every well-framed message with
-   FEWER THAN 256 additional records, given that signatures by the private key
-   check under the public key *)
+   any number of records the counts can express, given that signatures by the
+   private key check under the public key *)
 Theorem sign_verify :
-  forall ss sc chk h body r kname clen ulen out now,
-    hdr_ok h -> h_an h + h_ns h + h_ar h + 1 < 65536 -> h_ar h < 256 -> wf_body chk h body ->
+  forall ss sc chk h body r kname ulen out now,
+    hdr_ok h -> h_an h + h_ns h + h_ar h + 1 < 65536 -> wf_body chk h body ->
     s_expire r < 4294967296 -> s_incept r < 4294967296 -> s_keytag r < 65536 ->
     (forall d s, ss (s_alg r) d = Ok s -> sc (s_alg r) d s = Ok tt) ->
-    sig0_sign ss clen ulen (hdr_wire h ++ body) r = Ok out ->
+    sig0_sign ss ulen (hdr_wire h ++ body) r = Ok out ->
     s_incept r <= now <= s_expire r -> name_equal (s_signer r) kname = true ->
     sig0_verify sc r kname out now = Ok tt.
 Proof. exact sign_verify_ok. Qed.
-
-(* --- with 256 additional records it does not: Verify hashes 0 for the high
-   octet of ARCOUNT-1 (genuine defect C18/Verify/arcount-high-byte).  The
-   witness uses the transparent scheme "signature = data". *)
-Theorem verify_arcount_refuted :
-  match sig0_sign ex_ss 5000 5000 (ex_msg 255) ex_sig, sig0_sign ex_ss 5000 5000 (ex_msg 256) ex_sig with
-  | Ok o255, Ok o256 =>
-    sig0_verify ex_sc ex_sig [[107; 101; 121]] o255 1500 = Ok tt /\
-    sig0_verify ex_sc ex_sig [[107; 101; 121]] o256 1500 = Err "sig"
-  | _, _ => False
-  end.
-Proof. exact verify_arcount_witness. Qed.
 
 (* --- Verify = nil only if: the SIG has key tag, signer and a hashable
    algorithm; now is inside [inception, expiration] as plain unsigned numbers;
    the signer name in the message equals the key's owner name up to ASCII case;
    and the signature check accepted, for the octets after the signer name,
-   exactly: SIG RDATA up to the signer name | header octets 0..9 | 0 | low octet
-   of ARCOUNT-1 | octets 12..start of the last record *)
+   exactly: SIG RDATA up to the signer name | header octets 0..9 | ARCOUNT-1
+   (16 bits, big endian) | octets 12..start of the last record *)
 Theorem verify_sound :
   forall sc r kname buf now,
     sig0_verify sc r kname buf now = Ok tt ->
@@ -90,7 +78,7 @@ Theorem verify_sound :
       be_at 4 buf (sigstart + 8) = Ok expire /\ be_at 4 buf (sigstart + 8 + 4) = Ok incept /\
       incept <= now <= expire /\
       unpack_name buf (sigstart + 8 + 8 + 2) = Ok (signer, sigend) /\ name_equal signer kname = true /\
-      sc (s_alg r) (rd ++ h10 ++ [0; (adc + 65535) mod 65536 mod 256] ++ body) sg = Ok tt.
+      sc (s_alg r) (rd ++ h10 ++ [(adc + 65535) mod 65536 / 256; (adc + 65535) mod 65536 mod 256] ++ body) sg = Ok tt.
 Proof. exact verify_sound0. Qed.
 
 (* --- on ANY octet string of at least header size, with any SIG and key name,
@@ -126,13 +114,13 @@ Theorem same_signature_same_data :
     (forall adc bodyend sigstart rd h10 body,
         be_at 2 buf1 10 = Ok adc -> slice buf1 sigstart e1 = Ok rd -> slice buf1 0 10 = Ok h10 ->
         slice buf1 12 bodyend = Ok body ->
-        sc (s_alg r1) (rd ++ h10 ++ [0; (adc + 65535) mod 65536 mod 256] ++ body) sg = Ok tt ->
+        sc (s_alg r1) (rd ++ h10 ++ [(adc + 65535) mod 65536 / 256; (adc + 65535) mod 65536 mod 256] ++ body) sg = Ok tt ->
         forall adc' bodyend' sigstart' rd' h10' body',
           be_at 2 buf2 10 = Ok adc' -> slice buf2 sigstart' e2 = Ok rd' -> slice buf2 0 10 = Ok h10' ->
           slice buf2 12 bodyend' = Ok body' ->
-          sc (s_alg r2) (rd' ++ h10' ++ [0; (adc' + 65535) mod 65536 mod 256] ++ body') sg = Ok tt ->
-          rd ++ h10 ++ [0; (adc + 65535) mod 65536 mod 256] ++ body =
-          rd' ++ h10' ++ [0; (adc' + 65535) mod 65536 mod 256] ++ body').
+          sc (s_alg r2) (rd' ++ h10' ++ [(adc' + 65535) mod 65536 / 256; (adc' + 65535) mod 65536 mod 256] ++ body') sg = Ok tt ->
+          rd ++ h10 ++ [(adc + 65535) mod 65536 / 256; (adc + 65535) mod 65536 mod 256] ++ body =
+          rd' ++ h10' ++ [(adc' + 65535) mod 65536 / 256; (adc' + 65535) mod 65536 mod 256] ++ body').
 Proof. exact same_sig_same_data. Qed.
 
 (* --- errors named by the property: missing key fields *)
